@@ -275,7 +275,12 @@ class Result:
             "trusted_base": self.trusted or ["TLC 1.8.0", "harness/src/stream.rs payload projection", "hooks under cfg librqbit_utp_verif"],
         })
         if self.exhaustive is not None:
-            cov["exhaustive"] = self.exhaustive
+            # the schema wants a boolean; anything else a check wrote is kept as an explanatory note
+            if isinstance(self.exhaustive, bool):
+                cov["exhaustive"] = self.exhaustive
+            else:
+                cov["exhaustive"] = False
+                cov["exhaustive_note"] = self.exhaustive
         if extra_cov:
             cov.update(extra_cov)
         cov.update(self.notes)
